@@ -164,6 +164,33 @@ var targetKinds = []targetKind{
 	{"map-number", func() any { return new(map[string]json.Number) }, func(_ bool, class int) string {
 		return `{"a":1,"b":-2.5e3,"q":"1234567890","c":` + []string{"0", "12345678901234567890", "1e-7", "-0"}[class] + `}`
 	}},
+	// maps that already hold members of the document, and documents that name a member twice: the member is
+	// found in the map, and what the map keeps as its key must still not be a piece of the input
+	{"map-any-preset", func() any {
+		m := map[string]any{strings.Clone("s"): "old", strings.Clone("m"): 1.0, strings.Clone("zz"): nil}
+		return &m
+	}, buildDoc},
+	{"map-raw-preset", func() any {
+		m := map[string]json.RawMessage{strings.Clone("s"): json.RawMessage(`"old"`), strings.Clone("r"): nil}
+		return &m
+	}, buildDoc},
+	{"map-string-dup", func() any { m := map[string]string{strings.Clone("first"): "old"}; return &m }, func(_ bool, class int) string {
+		str := []string{`"plain ascii value"`, `"esc\"aped\n"`, `"non-ascii é"`, `""`}[class]
+		return `{"first":` + str + `,"second":"x","second":` + str + `,"third key":"y","first":"again"}`
+	}},
+	{"map-bool-dup", func() any { m := map[string]bool{strings.Clone("first"): true}; return &m }, func(_ bool, class int) string {
+		return `{"first":false,"second":true,"second":false,` + []string{`"plain key"`, `"esc\"aped"`, `"non-ascii é"`, `""`}[class] + `:true,"first":true}`
+	}},
+	{"map-strings-dup", func() any { m := map[string][]string{strings.Clone("first"): {"old"}}; return &m }, func(_ bool, class int) string {
+		str := []string{`"plain ascii value"`, `"esc\"aped\n"`, `"non-ascii é"`, `""`}[class]
+		return `{"first":[` + str + `],"second":["x"],"second":[` + str + `,"y"],"first":[]}`
+	}},
+	{"map-int-dup", func() any { m := map[string]int{strings.Clone("first"): 1}; return &m }, func(_ bool, class int) string {
+		return `{"first":2,"second":3,"second":4,` + []string{`"plain key"`, `"esc\"aped"`, `"non-ascii é"`, `""`}[class] + `:5,"first":6}`
+	}},
+	{"map-number-dup", func() any { m := map[string]json.Number{strings.Clone("first"): "1"}; return &m }, func(_ bool, class int) string {
+		return `{"first":2,"second":3.5,"second":4e2,"first":` + []string{"0", "12345678901234567890", "1e-7", "-0"}[class] + `}`
+	}},
 	{"array-raw", func() any { return new([2]json.RawMessage) }, func(_ bool, class int) string {
 		return `[ {"a":` + []string{`"x"`, `"\n"`, `"é"`, `""`}[class] + `} , [1,2] ]`
 	}},
@@ -671,6 +698,190 @@ func encodeFamily(c *explore.Ctx) {
 	}
 }
 
+// ---- memory lent to the encoder
+
+// spare returns a copy of b in a buffer with room to spare, the room filled with 0x55.
+func spare(b []byte, extra int) []byte {
+	buf := bytes.Repeat([]byte{0x55}, len(b)+extra)
+	copy(buf, b)
+	return buf[:len(b)]
+}
+
+func bigRaw(n int) []byte {
+	var b []byte
+	b = append(b, `{"k":[`...)
+	for len(b) < n {
+		b = append(b, `"<elem>",`...)
+	}
+	return append(b, `0]}`...)
+}
+
+var lentValues = []struct {
+	name string
+	mk   func() (any, [][]byte)
+}{
+	{"raw", func() (any, [][]byte) {
+		r := spare([]byte(`{"a":[1,2,"<x>"]}`), 64)
+		return json.RawMessage(r), [][]byte{r}
+	}},
+	{"raw larger than a fresh pooled buffer", func() (any, [][]byte) { r := spare(bigRaw(5000), 4096); return json.RawMessage(r), [][]byte{r} }},
+	{"raw larger than a grown pooled buffer", func() (any, [][]byte) { r := spare(bigRaw(70000), 100); return json.RawMessage(r), [][]byte{r} }},
+	{"*raw", func() (any, [][]byte) { r := json.RawMessage(spare(bigRaw(5000), 64)); return &r, [][]byte{r} }},
+	{"raw in struct", func() (any, [][]byte) {
+		r := spare(bigRaw(5000), 64)
+		b := spare(bytes.Repeat([]byte{9}, 3000), 64)
+		return struct {
+			R json.RawMessage
+			B []byte
+		}{r, b}, [][]byte{r, b}
+	}},
+	{"raw only member of a struct", func() (any, [][]byte) {
+		r := spare(bigRaw(5000), 64)
+		return struct{ R json.RawMessage }{r}, [][]byte{r}
+	}},
+	{"map of raws", func() (any, [][]byte) {
+		r1, r2 := spare(bigRaw(5000), 64), spare([]byte(`"<s>"`), 64)
+		return map[string]json.RawMessage{"b": r1, "a": r2}, [][]byte{r1, r2}
+	}},
+	{"raws in []any", func() (any, [][]byte) {
+		r1, r2 := spare(bigRaw(5000), 64), spare([]byte(`[ 1 , 2 ]`), 64)
+		return []any{json.RawMessage(r1), json.RawMessage(r2)}, [][]byte{r1, r2}
+	}},
+	{"bytes", func() (any, [][]byte) { b := spare(bytes.Repeat([]byte{7}, 6000), 64); return b, [][]byte{b} }},
+	{"number and strings", func() (any, [][]byte) {
+		return struct {
+			N json.Number
+			S string
+		}{"12.5e3", strings.Repeat("<s>", 2000)}, nil
+	}},
+}
+
+func lentFamily(c *explore.Ctx) {
+	lv := lentValues[c.Choose(len(lentValues))]
+	op := c.Choose(4) // Marshal, Append, Encoder, Encoder with a re-entrant writer
+	fl := json.AppendFlags(c.Choose(8))
+	dstKind := 0
+	if op == 1 {
+		dstKind = c.Choose(3)
+	}
+	seq := choosePosts(c, true)
+	overwriteAt := c.Choose(len(seq) + 2) // the caller overwrites what it lent before post number i (len+1: never)
+	hook.ResetAll()
+	if c.Bool() {
+		json.Marshal(otherVal) // a used buffer sits in the pool
+	}
+	val, lent := lv.mk()
+	snap := make([][]byte, len(lent))
+	for i, l := range lent {
+		snap[i] = append([]byte{}, l[:cap(l)]...)
+	}
+	h := &history{}
+	var get func() []byte
+	site := ""
+	var err error
+	switch op {
+	case 0:
+		if fl != json.EscapeHTML|json.SortMapKeys {
+			return
+		}
+		site = "Marshal"
+		var b []byte
+		b, err = json.Marshal(val)
+		get = func() []byte { return b }
+	case 1:
+		site = fmt.Sprintf("Append(flags=%03b,dst=%s)", fl, []string{"nil", "small", "large"}[dstKind])
+		var dst []byte
+		switch dstKind {
+		case 1:
+			dst = make([]byte, 0, 16)
+		case 2:
+			dst = make([]byte, 2, 1<<17)
+		}
+		var b []byte
+		b, err = json.Append(dst, val, fl)
+		get = func() []byte { return b }
+	case 2, 3:
+		site = fmt.Sprintf("Encoder(flags=%03b)", fl)
+		var buf bytes.Buffer
+		var w io.Writer = &buf
+		rw := &reentrantWriter{}
+		if op == 3 {
+			site += "(re-entrant writer)"
+			w = rw
+		}
+		enc := json.NewEncoder(w)
+		enc.SetEscapeHTML(fl&json.EscapeHTML != 0)
+		enc.SetSortMapKeys(fl&json.SortMapKeys != 0)
+		enc.SetTrustRawMessage(fl&json.TrustRawMessage != 0)
+		err = enc.Encode(val)
+		if err == nil {
+			err = enc.Encode(val)
+		}
+		get = func() []byte {
+			if op == 3 {
+				return rw.buf.Bytes()
+			}
+			return buf.Bytes()
+		}
+	}
+	if err != nil {
+		c.Fail("encode-error:"+lv.name, "%s(%s): %v", site, lv.name, err)
+		return
+	}
+	checkLent := func(when string) {
+		for i, l := range lent {
+			if now := l[:cap(l)]; !bytes.Equal(now, snap[i]) {
+				d := 0
+				for d < len(now) && now[d] == snap[i][d] {
+					d++
+				}
+				what := "contents"
+				if d >= len(l) {
+					what = "spare capacity"
+				}
+				c.Fail("lent-memory-written:"+what+":"+when, "%s(%s): the %s of the %d-byte value lent to the call differ at offset %d %s (%.40q, was %.40q)", site, lv.name, what, len(l), d, when, now[d:], snap[i][d:])
+				copy(snap[i], now)
+			}
+		}
+	}
+	checkLent("at return")
+	at := string(get())
+	done := ""
+	for i := 0; i <= len(seq); i++ {
+		if i == overwriteAt {
+			for k, l := range lent {
+				for j := range l[:cap(l)] {
+					l[:cap(l)][j] = 0xAA
+				}
+				copy(snap[k], l[:cap(l)])
+			}
+			done += "caller overwrites what it lent;"
+			if now := string(get()); now != at {
+				c.Fail("result-shares-lent-memory", "the result of %s(%s) was %.80q at return and is %.80q once the caller has overwritten the value it passed in", site, lv.name, at, now)
+				at = now
+			}
+		}
+		if i == len(seq) {
+			break
+		}
+		seq[i].run(h)
+		done += seq[i].name + ";"
+		checkLent("after " + seq[i].name)
+		if now := string(get()); now != at {
+			c.Fail("result-changed:lent:after="+seq[i].name, "the result of %s(%s) was %.80q at return and is %.80q after %s", site, lv.name, at, now, done)
+			at = now
+		}
+	}
+	for _, v := range hook.TakeViolations() {
+		c.Fail(v[0]+":"+site, "%s during %s(%s) followed by %s", v[1], site, lv.name, done)
+	}
+	c.NontrivialStr("lent", lv.name, site)
+	c.Outcome(fmt.Sprintf("op=%d value=%s", op, lv.name))
+	if c.WantSample() || c.Failed() {
+		c.Case(map[string]any{"op": site, "value": lv.name, "posts": postNames(seq), "caller_overwrites_before_post": overwriteAt})
+	}
+}
+
 type reentrantWriter struct{ buf bytes.Buffer }
 
 func (w *reentrantWriter) Write(p []byte) (int, error) {
@@ -684,10 +895,11 @@ func Spec() *explore.Spec {
 	return &explore.Spec{
 		ID: "C10",
 		Families: []*explore.Family{
-			{Name: "parse", ShardDepth: 3, Body: parseFamily, Doc: "Parse/Unmarshal of 7 target kinds x documents (4 string classes, exact / upper-case keys incl. 63/64/65-byte keys) x all 8 subsets of the DontCopy flags (+Unmarshal) x UseNumber x every sequence of <= 2 (thorough 3) later calls from a menu of 7 (overwrite the input, Marshal, Encoder, Unmarshal, Decoder, Tokenizer on other data)"},
+			{Name: "parse", ShardDepth: 3, Body: parseFamily, Doc: "Parse/Unmarshal of 14 target kinds (incl. maps that already hold members of the document, and documents naming a member twice) x documents (4 string classes, exact / upper-case keys incl. 63/64/65-byte keys) x all 8 subsets of the DontCopy flags (+Unmarshal) x UseNumber x every sequence of <= 2 (thorough 3) later calls from a menu of 7 (overwrite the input, Marshal, Encoder, Unmarshal, Decoder, Tokenizer on other data)"},
 			{Name: "decoder", ShardDepth: 3, Body: decoderFamily, Doc: "Decoder.Decode of the first value of a stream delivered so that the tail is compacted over it / the buffer is reallocated / bytes arrive one at a time / all at once, followed by the next two Decode calls and every sequence of later calls"},
 			{Name: "tokenizer", ShardDepth: 2, Body: tokenizerFamily, Doc: "Tokenizer.String results (slices of the input, or fresh slices for escaped strings) x every sequence of later calls"},
 			{Name: "encode", ShardDepth: 2, Body: encodeFamily, Doc: "Marshal / Encoder.Encode (plain writer; writer that calls the library before consuming its argument, with and without SetIndent) / Append / MarshalIndent of 12 value kinds (incl. outputs larger than a fresh pooled buffer and sorted map[string]RawMessage), with and without a used buffer in the pool, x every sequence of <= 2 (3) later calls incl. GC; Marshal repeated at the end gives the same bytes"},
+			{Name: "lent-values", ShardDepth: 3, Body: lentFamily, Doc: "memory lent to the encoder: 10 values holding RawMessages / byte slices (small, larger than a fresh pooled buffer, larger than a grown one; top-level, behind a pointer, in structs, maps and []any), each with spare capacity behind it x {Marshal, Append x 8 flag subsets x 3 destinations, Encoder x 8 setter combinations x {plain, re-entrant writer}} x every sequence of <= 2 (3) later calls x the moment at which the caller overwrites what it lent: neither the contents nor the spare capacity of a lent value is ever written, and the result does not change when the caller overwrites it"},
 		},
 		Rule: "every history op;post* within the bounds; distinct non-trivial = distinct (operation, document/value, flags)",
 		Assumptions: []string{
